@@ -270,9 +270,11 @@ def run(ctx):
                 continue
             out = impl.split(" ", 1)
             got = gen.parse_wire_tree(out[1] if len(out) > 1 else "")
-            if out[0] == "backupfailed" and got == exp:
-                # tree is right but the command reports failure: C04's finding (nested dirs + edited, un-renamed file)
-                ctx.count("tree:backupfailed_tree_ok")
+            if out[0] == "backupfailed":
+                # the command reports a failure of STEP 4 (reading an edited file back): what the tree must look like
+                # then is C04's subject (since repo commit 6667a82 the renames are rolled back); model and
+                # implementation have already been compared on it above
+                ctx.count("tree:backupfailed")
                 continue
             if out[0] != "ok" or got != exp:
                 ctx.violation("input", {"op": "applytree", "request": r, "tree": common.snap_digest(snap), "plan": plan},
